@@ -835,6 +835,39 @@ pub fn script_leg(args: &Args) {
         rep.finish(args);
         return;
     }
+    // Control commands that a script may not invoke: the refusal must not depend on the letter case of the name, and
+    // a refused call must leave the executor exactly as it was (the next plain command of any client behaves normally:
+    // never QUEUED, keyspace unchanged). Oracle = the upper-case spelling's outcome on a twin executor.
+    for name in NOSCRIPT.iter() {
+        for extra in [vec![], vec![s("k")], vec![s("k"), s("1")]] {
+            for mode in ["call", "pcall"] {
+                let script = format!("return redis.{}(unpack(ARGV))", mode);
+                let run = |spelling: String| -> (RespValue, RespValue, RespValue, RespValue) {
+                    let mut ex = CommandExecutor::new();
+                    let _ = run_frame(&mut ex, &[s("SET"), s("probe"), s("0")]);
+                    let mut f = vec![s("EVAL"), s(&script), s("0"), spelling.into_bytes()];
+                    f.extend(extra.iter().cloned());
+                    let r = run_frame(&mut ex, &f);
+                    // what an ordinary client sees next on the same executor
+                    (r, run_frame(&mut ex, &[s("INCR"), s("probe")]), run_frame(&mut ex, &[s("GET"), s("probe")]), run_frame(&mut ex, &[s("DBSIZE")]))
+                };
+                let upper = run(name.to_string());
+                for spelling in [name.to_lowercase(), random_case(&mut args.rng(1620 + name.len() as u64), name), format!("{}{}", &name[..1].to_lowercase(), &name[1..])] {
+                    rep.evaluations += 1;
+                    rep.count("noscript_case_variants");
+                    let got = run(spelling.clone());
+                    let class = |r: &RespValue| matches!(r, RespValue::Error(_));
+                    if class(&got.0) != class(&upper.0) || got.1 != upper.1 || got.2 != upper.2 || got.3 != upper.3 {
+                        rep.violation(
+                            format!("C16|script|{}|control-command-refusal-depends-on-letter-case|{}", name, mode),
+                            format!("redis.{}('{}', ..{} args): {:?}, then INCR/GET/DBSIZE {:?} {:?} {:?}; with '{}': {:?}, then {:?} {:?} {:?}", mode, spelling, extra.len(), got.0, got.1, got.2, got.3, name, upper.0, upper.1, upper.2, upper.3),
+                            json!({"noscript": name, "spelling": spelling, "mode": mode, "extra": extra.len()}),
+                        );
+                    }
+                }
+            }
+        }
+    }
     let names: Vec<&String> = v.names.iter().filter(|n| !NOSCRIPT.contains(&n.as_str())).collect();
     let lua_known: BTreeSet<&String> =
         names.iter().copied().filter(|n| !matches!(probe(n), RespValue::Error(ref e) if e.contains("Unknown Redis command"))).collect();
